@@ -47,6 +47,9 @@ def run(chk):
     mhrules.bit_length_width(chk, "R05.6", mods)
     nls = mhrules.loop_state_rule(chk, "R05.7", lib, r"^_mh_sha(1|256)_block_\w+$")
     chk.floor("block functions with loops checked for accumulator discipline", nls, 8)
+    ncons, ncase = mhrules.update_conservation(chk, "R05.9", mods, r"^_mh_sha(1|256)_update_\w+$", r"^_?mh_sha(1|256)_block_\w+$")
+    chk.floor("update functions replayed for byte conservation", ncons, 10)
+    chk.floor("(carried, len) cases followed on the IR skeleton", ncase, 300)
     nbb = mhrules.block_bounds(chk, "R05.8", lib, mods, "_mh_sha1_block") + mhrules.block_bounds(chk, "R05.8", lib, mods, "_mh_sha256_block")
     chk.floor("block functions followed on the length skeleton", nbb, 8)
     ns = mhrules.length_store_survives(chk, "R05.4", lib, mods)
